@@ -11,8 +11,8 @@
      parser, whatever the wrapped ansi parser answers.
    Outside: every drawing primitive beyond put_pixel / bar_rect, fonts, buttons, icons, flood fill, all of IGS (search stage only). *)
 From Coq Require Import NArith ZArith List Bool.
-From IE Require Import Gen.RipGen Model.RipTok Model.BgiKernel Model.RipStream
-                       Proofs.RipTokProofs Proofs.BgiProofs Proofs.RipStreamProofs.
+From IE Require Import Gen.RipGen Gen.RipLineGen Gen.IgsGen Model.IgsTok Model.IgsKernel Model.IgsLine Proofs.IgsTokProofs Proofs.IgsKernelProofs Proofs.IgsLineProofs Model.RipTok Model.BgiKernel Model.RipStream Model.BgiLine Model.RipStream2
+                       Proofs.RipTokProofs Proofs.BgiProofs Proofs.RipStreamProofs Proofs.RipVecProofs Proofs.BgiLineProofs Proofs.RipStream2Proofs.
 Import ListNotations.
 Local Open Scope Z_scope.
 
@@ -133,3 +133,316 @@ Example row_loop_clips : row_loop_px [1; 2; 3]%N 2 [7; 8; 9]%N = Ok [1; 2; 7]%N.
 Proof. reflexivity. Qed.
 Example args_nontrivial : ArgsOk {| pc_cmd := CBar; pc_fields := [0; 0; 1295; 1295]; pc_vec := []; pc_textlen := 0 |}.
 Proof. split; [reflexivity|]. repeat constructor; unfold PMAX; discriminate. Qed.
+
+(* ================================================================================================================= *)
+(* Extension 1: the line family of the BGI kernel (Model/BgiLine.v) and the RIP commands Line, Rectangle, Polygon,
+   PolyLine, LineStyle (Model/RipStream2.v).                                                                          *)
+
+(* Bgi::line over an abstract canvas: for EVERY plot function that returns normally on coordinates within +-2^20, keeps an
+   invariant P and raises a measure mu by at most 1 per call, Bgi::line with end points within +-65535, any viewport with
+   corners in 0..=65535, any non-empty line pattern and any thickness 0..=65535 returns normally (no i32 overflow, no pattern
+   index out of range, no division by zero), keeps P, and raises mu by at most (3(|dx|+|dy|)+8)*thickness.  Because the plot
+   function is arbitrary outside the box, this also says: every pixel the line plots is handed to plot with coordinates inside
+   the box — the clipping to the viewport happens BEFORE the pixel loops. *)
+Theorem line_canvas_generic : forall (A : Type) (plot : A -> Z -> Z -> res A) (P : A -> Prop) (mu : A -> Z),
+  (forall a x y, P a -> - RB <= x <= RB -> - RB <= y <= RB -> exists a', plot a x y = Ok a' /\ P a' /\ mu a' <= mu a + 1) ->
+  forall vp pat K a x1 y1 x2 y2, P a -> VpOk vp -> (0 < length pat)%nat -> 0 <= K <= PMAX ->
+  CoordOk x1 -> CoordOk y1 -> CoordOk x2 -> CoordOk y2 ->
+  exists a', line plot vp pat K a x1 y1 x2 y2 = Ok a' /\ P a' /\ mu a' <= mu a + (3 * (Z.abs (x2 - x1) + Z.abs (y2 - y1)) + 8) * K.
+Proof. exact line_ok. Qed.
+
+(* one clipped run of a line: at most (|count|+2) columns of at most `thickness` pixels; the pattern offset moves forward by at
+   most 2|count|+2 *)
+Theorem fill_x_generic : forall (A : Type) (plot : A -> Z -> Z -> res A) (P : A -> Prop) (mu : A -> Z),
+  (forall a x y, P a -> - RB <= x <= RB -> - RB <= y <= RB -> exists a', plot a x y = Ok a' /\ P a' /\ mu a' <= mu a + 1) ->
+  forall vp pat K a y sx count off, P a -> VpOk vp -> (0 < length pat)%nat -> 0 <= K <= PMAX ->
+  - RB <= y <= RB -> - RB <= sx <= RB -> - RB <= count <= RB -> - OBH <= off <= OBH ->
+  exists a' off', fill_x plot vp pat K a y sx count off = Ok (a', off') /\ P a' /\ off <= off' <= off + 2 * Z.abs count + 2 /\
+                  mu a' <= mu a + (Z.abs count + 2) * K.
+Proof. exact fill_x_ok. Qed.
+
+Theorem fill_y_generic : forall (A : Type) (plot : A -> Z -> Z -> res A) (P : A -> Prop) (mu : A -> Z),
+  (forall a x y, P a -> - RB <= x <= RB -> - RB <= y <= RB -> exists a', plot a x y = Ok a' /\ P a' /\ mu a' <= mu a + 1) ->
+  forall vp pat K a x sy count off, P a -> VpOk vp -> (0 < length pat)%nat -> 0 <= K <= PMAX ->
+  - RB <= x <= RB -> - RB <= sy <= RB -> - RB <= count <= RB -> - OBH <= off <= OBH ->
+  exists a' off', fill_y plot vp pat K a x sy count off = Ok (a', off') /\ P a' /\ off <= off' <= off + 2 * Z.abs count + 2 /\
+                  mu a' <= mu a + (Z.abs count + 2) * K.
+Proof. exact fill_y_ok. Qed.
+
+(* the real canvas: every plotted pixel goes through the checked Bgi::put_pixel *)
+Theorem line_safe : forall s x1 y1 x2 y2, InvL s -> CoordOk x1 -> CoordOk y1 -> CoordOk x2 -> CoordOk y2 ->
+  match bgi_line s x1 y1 x2 y2 with Ok s' => InvL s' /\ same_canvas2 s s' | Panic _ => False end.
+Proof. exact bgi_line_ok. Qed.
+
+Theorem rectangle_safe : forall s l t r b, InvL s -> CoordOk l -> CoordOk t -> CoordOk r -> CoordOk b ->
+  match bgi_rectangle s l t r b with Ok s' => InvL s' /\ same_canvas2 s s' | Panic _ => False end.
+Proof. exact bgi_rectangle_ok. Qed.
+
+Theorem draw_poly_safe : forall s pts, InvL s -> Forall PtOk pts ->
+  match bgi_draw_poly s pts with Ok s' => InvL s' /\ same_canvas2 s s' | Panic _ => False end.
+Proof. exact bgi_draw_poly_ok. Qed.
+
+Theorem draw_poly_line_safe : forall s pts, InvL s -> Forall PtOk pts ->
+  match bgi_draw_poly_line s pts with Ok s' => InvL s' /\ same_canvas2 s s' | Panic _ => False end.
+Proof. exact bgi_draw_poly_line_ok. Qed.
+
+(* cost: the number of put_pixel calls of one Bgi::line; with RIP parameters (<= 1295) at most 10 368 * thickness *)
+Theorem line_cost : forall vp pat K x1 y1 x2 y2, VpOk vp -> (0 < length pat)%nat -> 0 <= K <= PMAX ->
+  CoordOk x1 -> CoordOk y1 -> CoordOk x2 -> CoordOk y2 ->
+  exists n, line_plots vp pat K x1 y1 x2 y2 = Ok n /\ Z.of_nat n <= (3 * (Z.abs (x2 - x1) + Z.abs (y2 - y1)) + 8) * K.
+Proof. exact line_plots_bound. Qed.
+
+(* the tokenizer keeps the Vec<i32> of the command under construction (palette entries, polygon points) at two base-36 digits *)
+Theorem tokenizer_vec_range : forall fb t ch, 0 <= t_pstate t -> TokVec t ->
+  match tok_step fb t ch with SOk t' a _ => TokVec t' /\ ActVec a | SPanic _ => True end.
+Proof. exact tok_step_vec. Qed.
+
+Theorem kernel2_safe : forall s c, InvL s -> ArgsOk2 c ->
+  match run_cmd2 s c with
+  | ROk2 s' => InvL s' /\ same_canvas2 s s'
+  | RPanic2 _ => False
+  | RUnmodelled2 => True
+  end.
+Proof. exact run_cmd2_ok. Qed.
+
+Theorem kernel2_seq_safe : forall cs s, InvL s -> Forall ArgsOk2 cs ->
+  match run_cmds2 s cs with
+  | ROk2 s' => InvL s' /\ same_canvas2 s s'
+  | RPanic2 _ => False
+  | RUnmodelled2 => True
+  end.
+Proof. exact run_cmds2_ok. Qed.
+
+(* the commands whose run is inside the extended kernel never end a run as "unmodelled" *)
+Theorem kernel2_modelled : forall s c, modelled2 (pc_cmd c) = true -> run_cmd2 s c <> RUnmodelled2.
+Proof. exact modelled2_not_unmodelled. Qed.
+
+Theorem rip_stream_safe2 : forall (FS : Type) fb_print fb_mode fb_reset (fs : FS) cs errs,
+  Z.of_nat (length cs) <= I32_MAX ->
+  match fst (rip_run2 FS fb_print fb_mode fb_reset (rip_init2 FS fs) errs cs) with
+  | OOk2 s _ => TokInv (r_tok2 s) /\ InvL (r_bgi2 s) /\
+                Z.of_nat (length (screen (lb (r_bgi2 s)))) = SCREEN_W * SCREEN_H /\ win_w (lb (r_bgi2 s)) = SCREEN_W /\ win_h (lb (r_bgi2 s)) = SCREEN_H
+  | OPanic2 _ => False
+  | OUnmodelled2 => True
+  end.
+Proof. exact rip_stream_safe2_lemma. Qed.
+
+(* ---- non-vacuity ---- *)
+Definition run2 (cs : list N) := rip_run2 unit fb0 (fun _ => FDefault) (fun u => u) (rip_init2 unit tt) 0%N cs.
+
+(* "!|c0A|L00000402|" : colour 10, a line (0,0)-(4,2) in runs of 1, 2, 2 pixels: (0,0) | (1,1) (2,1) | (3,2) (4,2) *)
+Example stream_draws_line : match fst (run2 [33; 124; 99; 48; 65; 124; 76; 48; 48; 48; 48; 48; 52; 48; 50; 124]%N) with
+                            | OOk2 s _ => map (fun i => nth_error (screen (lb (r_bgi2 s))) i) [0; 1; 642; 643; 1284; 2; 641]%nat
+                                          = [Some 10; Some 0; Some 10; Some 0; Some 10; Some 0; Some 10]%N
+                            | _ => False end.
+Proof. vm_compute. reflexivity. Qed.
+
+(* "!|=010003|" : LineStyle dotted, thickness 3 *)
+Example linestyle_sets : match fst (run2 [33; 124; 61; 48; 49; 48; 48; 48; 48; 48; 51; 124]%N) with
+                         | OOk2 s _ => line_style (r_bgi2 s) = 1%N /\ line_thickness (r_bgi2 s) = 3 /\ line_pattern (r_bgi2 s) = bits16 52428
+                         | _ => False end.
+Proof. vm_compute. auto. Qed.
+
+(* "!|P" with 3 points draws; a circle is still outside *)
+Example unmodelled2_is_flagged : fst (run2 [33; 124; 67; 48; 48; 48; 48; 48; 48]%N) = OUnmodelled2.
+Proof. vm_compute. reflexivity. Qed.
+
+Example inv2_initial : InvL lbgi_new /\ TokVec tok_init.
+Proof. exact (conj lbgi_new_inv tok_init_vec). Qed.
+
+(* the checked sites of the line model do fire when their guards are missing: an empty pattern is a remainder by zero *)
+Example empty_pattern_panics : pat_at [] 0 = Panic SITE_REM_ZERO.
+Proof. reflexivity. Qed.
+Example line_cost_example : line_plots (0, 0, 640, 350) (bits16 65535) 3 0 0 1295 1295 = Ok 1049%nat.
+Proof. vm_compute. reflexivity. Qed.
+
+(* ================================================================================================================= *)
+(* Extension 2: the IGS tokenizer (Model/IgsTok.v: print_char, get_next_action, Loop::next_step) for EVERY executor and
+   fallback parser, and Extension 3: the IGS pixel kernel (Model/IgsKernel.v).                                          *)
+
+(* print_char: from every parser state satisfying IgsInv (the loop-header shape: parsed_numbers has 4 entries while the loop
+   command letter is read, 5 from the parameter count on, parsed_numbers[3] (the delay) is 0, loop_parameters and its last
+   group are non-empty while parameters are read; a running loop has at least one parameter group and delay 0), every
+   character, every executor, every fallback parser: the call returns with IgsInv again, or it panics in the i32 arithmetic of
+   Loop::next_step — the ONE known class (igs-panic:next_step).  In particular parsed_numbers[0..=4],
+   loop_parameters.last_mut().unwrap(), `% parameters.len()`, parameters[cur_parameter] are never out of range and the
+   thread::sleep(200 ms * delay) of next_step never sleeps. *)
+Theorem igs_tokenizer_safe : forall (X : Type) (exec : X -> N -> list Z -> str -> X * bool) (FS : Type) (fb_print : FS -> N -> FS * bool)
+  (w : iworld X FS) (ch : N), IgsInv (w_p X FS w) ->
+  match igs_step X exec FS fb_print w ch with
+  | Ok (w', _) => IgsInv (w_p X FS w')
+  | Panic s => s = SITE_IGS_LOOP_ARITH
+  end.
+Proof. exact igs_step_post. Qed.
+
+Theorem igs_next_action_safe : forall (X : Type) (exec : X -> N -> list Z -> str -> X * bool) (FS : Type) (w : iworld X FS),
+  IgsInv (w_p X FS w) ->
+  match igs_next_action X exec FS w with
+  | Ok (w', _) => IgsInv (w_p X FS w')
+  | Panic s => s = SITE_IGS_LOOP_ARITH
+  end.
+Proof. exact igs_next_action_post. Qed.
+
+(* every interleaving of characters and get_next_action calls, from the fresh parser *)
+Theorem igs_stream_safe : forall (X : Type) (exec : X -> N -> list Z -> str -> X * bool) (FS : Type) (fb_print : FS -> N -> FS * bool)
+  (x : X) (fs : FS) (es : list event),
+  match igs_run X exec FS fb_print {| w_p := ipars_new; w_x := x; w_fb := fs |} es with
+  | Ok w' => IgsInv (w_p X FS w')
+  | Panic s => s = SITE_IGS_LOOP_ARITH
+  end.
+Proof. intros. apply igs_run_post. exact ipars_new_inv. Qed.
+
+(* outside the known class: a loop whose header (from, to, step) and parameter values are at most 10^9 never panics, and stays
+   such a loop *)
+Theorem igs_loop_step_safe : forall (X : Type) (exec : X -> N -> list Z -> str -> X * bool) (x : X) (l : iloop), LoopOk l -> LoopSmall l ->
+  match next_step X exec x l with
+  | Ok (Some (_, l', _)) => LoopOk l' /\ LoopSmall l'
+  | Ok None => True
+  | Panic _ => False
+  end.
+Proof. exact next_step_small. Qed.
+
+(* stall side: with step >= 1 every executed step brings the loop counter at least `step` closer to its end (so a loop runs at
+   most |to - from| steps); with step = 0 the loop state does not change: get_next_action never returns None again *)
+Theorem igs_loop_progress : forall (X : Type) (exec : X -> N -> list Z -> str -> X * bool) x l x' l' ok,
+  next_step X exec x l = Ok (Some (x', l', ok)) -> 1 <= l_step l ->
+  0 < loop_measure l /\ loop_measure l' <= loop_measure l - l_step l /\ l_from l' = l_from l /\ l_to l' = l_to l /\ l_step l' = l_step l.
+Proof. exact next_step_progress. Qed.
+
+Theorem igs_loop_step0_stuck : forall (X : Type) (exec : X -> N -> list Z -> str -> X * bool) x l x' l' ok,
+  next_step X exec x l = Ok (Some (x', l', ok)) -> l_step l = 0 -> l' = l.
+Proof. exact next_step_stuck. Qed.
+
+(* an invariant of the executor is an invariant of the parser: the tokenizer only ever hands the executor state to exec *)
+Theorem igs_executor_invariant : forall (X : Type) (exec : X -> N -> list Z -> str -> X * bool) (FS : Type) (fb_print : FS -> N -> FS * bool)
+  (Q : X -> Prop), (forall x c ps s, Q x -> Q (fst (exec x c ps s))) ->
+  forall es w, Q (w_x X FS w) -> match igs_run X exec FS fb_print w es with Ok w' => Q (w_x X FS w') | Panic _ => True end.
+Proof. exact igs_run_Q. Qed.
+
+(* ---- IGS pixel kernel: ALL coordinates, ALL parameter values ---- *)
+Theorem igs_set_pixel_safe : forall e x y c, InvE e -> (c < 16)%N ->
+  exists scr, igs_set_pixel e x y c = Ok (e_upd_screen e scr) /\ length scr = length (e_screen e) /\ PensOk scr.
+Proof. exact igs_set_pixel_ok. Qed.
+
+Theorem igs_get_pixel_safe : forall e x y, InvE e -> exists v, igs_get_pixel e x y = Ok v.
+Proof. exact igs_get_pixel_ok. Qed.
+
+Theorem igs_fill_rect_safe : forall e x0 y0 x1 y1, InvE e -> exists e', igs_fill_rect e x0 y0 x1 y1 = Ok e' /\ SameE e e'.
+Proof. exact igs_fill_rect_ok. Qed.
+
+(* the loops of fill_rect run over the clipped rectangle: at most width x height fill_pixel calls whatever the coordinates *)
+Theorem igs_fill_rect_cost : forall e x0 y0 x1 y1, InvE e -> 0 <= igs_fill_rect_calls e x0 y0 x1 y1 <= e_w e * e_h e.
+Proof. exact IgsKernelProofs.igs_fill_rect_cost. Qed.
+
+Theorem igs_picture_safe : forall e, InvE e -> exists l, igs_picture e = Ok l /\ Z.of_nat (length l) = 4 * (e_w e * e_h e).
+Proof. exact igs_picture_ok. Qed.
+
+Theorem igs_kernel_safe : forall e c ps s, InvE e ->
+  match igs_exec e c ps s with XOk e' _ => InvE e' | XPanic _ => False | XUnmodelled => True end.
+Proof. exact igs_exec_ok. Qed.
+
+(* the whole IGS parser over the modelled executor, every interleaving of characters and get_next_action calls, every fallback
+   parser: no panic except the known loop arithmetic; the executor never panics; the picture is width x height x 4 bytes *)
+Theorem igs_stream_kernel_safe : forall (FS : Type) (fb_print : FS -> N -> FS * bool) (fs : FS) (es : list event),
+  match igs_run xstate igs_x FS fb_print (igs_world_init FS fs) es with
+  | Ok w' => IgsInv (w_p xstate FS w') /\
+             match w_x xstate FS w' with
+             | SOkE e => InvE e /\ exists px, igs_picture e = Ok px /\ Z.of_nat (length px) = 4 * (e_w e * e_h e)
+             | SPanicE _ => False
+             | SUnmodelledE => True
+             end
+  | Panic s => s = SITE_IGS_LOOP_ARITH
+  end.
+Proof. exact igs_stream_kernel_lemma. Qed.
+
+(* ---- non-vacuity / witnesses ---- *)
+Definition ex0 (u : unit) (_ : N) (_ : list Z) (_ : str) : unit * bool := (u, true).
+Definition igs_chars (cs : list N) : list event := map EChar cs.
+Definition igs_run0 (es : list event) := igs_run unit ex0 unit fb0 {| w_p := ipars_new; w_x := tt; w_fb := tt |} es.
+
+(* KNOWN igs-panic:next_step — "G#&100,200,2147483647,0,L,4,0,0,1,1:" : the step saturates at 2147483599 and `i += step` overflows *)
+Example igs_loop_arith_witness :
+  igs_run0 (igs_chars [71; 35; 38; 49; 48; 48; 44; 50; 48; 48; 44; 50; 49; 52; 55; 52; 56; 51; 54; 52; 55; 44; 48; 44; 76; 44; 52; 44; 48; 44; 48; 44; 49; 44; 49; 58]%N)
+  = Panic SITE_IGS_LOOP_ARITH.
+Proof. vm_compute. reflexivity. Qed.
+
+(* KNOWN igs-panic:next_step — "G#&1,3,1,0,L,4,+2147483647,0,0,0:" : `value += x` *)
+Example igs_loop_value_witness :
+  igs_run0 (igs_chars [71; 35; 38; 49; 44; 51; 44; 49; 44; 48; 44; 76; 44; 52; 44; 43; 50; 49; 52; 55; 52; 56; 51; 54; 52; 55; 44; 48; 44; 48; 44; 48; 58]%N)
+  = Panic SITE_IGS_LOOP_ARITH.
+Proof. vm_compute. reflexivity. Qed.
+
+(* KNOWN igs-loop-endless — "G#&0,3,0,0,L,4,0,0,1,1:" then 100 get_next_action calls: the loop is still there, unchanged *)
+Example igs_loop_step0_witness :
+  match igs_run0 (igs_chars [71; 35; 38; 48; 44; 51; 44; 48; 44; 48; 44; 76; 44; 52; 44; 48; 44; 48; 44; 49; 44; 49; 58]%N ++ repeat ENext 100) with
+  | Ok w => match i_loop (w_p unit unit w) with Some l => l_i l = 0 /\ l_step l = 0 /\ loop_running l = true | None => False end
+  | Panic _ => False
+  end.
+Proof. vm_compute. auto. Qed.
+
+(* a loop that draws: "G#&0,3,1,0,Z,4,x,0,x,5:" runs its first step inside print_char and two more on get_next_action *)
+Example igs_loop_runs :
+  match igs_run xstate igs_x unit fb0 (igs_world_init unit tt)
+          (igs_chars [71; 35; 38; 48; 44; 51; 44; 49; 44; 48; 44; 90; 44; 52; 44; 120; 44; 48; 44; 120; 44; 53; 58]%N ++ [ENext; ENext; ENext]) with
+  | Ok w => i_loop (w_p xstate unit w) = None /\ match w_x xstate unit w with SOkE e => nth_error (e_screen e) 2 = Some 0%N /\ nth_error (e_screen e) 3 = Some 1%N | _ => False end
+  | Panic _ => False
+  end.
+Proof. vm_compute. auto. Qed.
+
+Example igs_inv_initial : IgsInv ipars_new /\ InvE iexec_new.
+Proof. exact (conj ipars_new_inv iexec_new_inv). Qed.
+
+(* the checked sites fire when their guards are missing: parsed_numbers[4] of a four-element vector *)
+Example igs_nums4_panics : idx SITE_IGS_NUMS [0; 3; 1; 0] 4 = Panic SITE_IGS_NUMS.
+Proof. reflexivity. Qed.
+
+(* ================================================================================================================= *)
+(* Extension 3b: IGS draw_line (Model/IgsLine.v), an UNCLIPPED Bresenham, and the commands DrawLine, LineDrawTo,
+   LineMarkerTypes.                                                                                                   *)
+
+(* draw_line for ALL arguments: it ends at (x1, y1) — the model's fuel dx + dy + 1 always suffices — after at least
+   max(dx, dy) + 1 loop iterations (one set_pixel slot each), whatever part of the line is on the screen: the work is
+   proportional to the COORDINATES, not to the canvas (known finding igs-timeout:L); the only panics are LINE_STYLE[6]
+   (LineType::UserDefined) and an i32 overflow that needs an end point beyond +-2^27 (known finding igs-panic:draw_line) *)
+Theorem igs_draw_line_total : forall e x0 y0 x1 y1 color mask, InvE e -> (color < 16)%N ->
+  match igs_draw_line e x0 y0 x1 y1 color mask with
+  | Ok (e', n) => SameE e e' /\ Z.max (Z.abs (x0 - x1)) (Z.abs (y0 - y1)) + 1 <= n <= Z.abs (x0 - x1) + Z.abs (y0 - y1) + 1
+  | Panic p => (p = SITE_IGS_LINESTYLE /\ ~ (0 <= mask <= 5)) \/ (p = SITE_I32 /\ ~ DlSmall x0 y0 x1 y1)
+  end.
+Proof. exact igs_draw_line_post. Qed.
+
+(* KNOWN igs-timeout:L as a theorem: on the 320 x 200 canvas a horizontal line to x = D costs at least D + 1 iterations, for every D up to 2^27 *)
+Theorem igs_draw_line_stall_witness : forall D, 0 <= D <= DLH ->
+  exists e' n, igs_draw_line iexec_new 0 0 D 0 0%N 0 = Ok (e', n) /\ D + 1 <= n.
+Proof. exact igs_draw_line_stall. Qed.
+
+Theorem igs_kernel2_safe : forall s c ps str_, InvE2 s ->
+  match igs_exec2 s c ps str_ with
+  | XOk2 s' _ => InvE2 s'
+  | XPanic2 p => ((c = 76 \/ c = 68)%N) /\
+                 ((p = SITE_IGS_LINESTYLE /\ x_line_type s = 6) \/
+                  (p = SITE_I32 /\ ~ (Forall (fun v => Z.abs v <= DLH) ps /\ Z.abs (x_cur_x s) <= DLH /\ Z.abs (x_cur_y s) <= DLH)))
+  | XUnmodelled2 => True
+  end.
+Proof. exact igs_exec2_ok. Qed.
+
+Theorem igs_stream_kernel2_safe : forall (FS : Type) (fb_print : FS -> N -> FS * bool) (fs : FS) (es : list event),
+  match igs_run xstate2 igs_x2 FS fb_print (igs_world_init2 FS fs) es with
+  | Ok w' => IgsInv (w_p xstate2 FS w') /\
+             match w_x xstate2 FS w' with
+             | SOkE2 s => InvE2 s /\ exists px, igs_picture (x_e s) = Ok px /\ Z.of_nat (length px) = 4 * (e_w (x_e s) * e_h (x_e s))
+             | SPanicE2 p => p = SITE_IGS_LINESTYLE \/ p = SITE_I32
+             | SUnmodelledE2 => True
+             end
+  | Panic s => s = SITE_IGS_LOOP_ARITH
+  end.
+Proof. exact igs_stream_kernel2_lemma. Qed.
+
+(* "G#L 0,0,4,2:" : five loop iterations; "G#T 2,7,1:L 0,0,5,5:" : the user-defined line type indexes LINE_STYLE[6] *)
+Example igs_line_draws : match igs_draw_line iexec_new 0 0 4 2 3%N 0 with
+                         | Ok (e', n) => n = 5 /\ map (fun i => nth_error (e_screen e') i) [0; 1; 321; 322; 323; 643; 644]%nat
+                                                  = [Some 3; Some 3; Some 1; Some 3; Some 3; Some 1; Some 3]%N
+                         | Panic _ => False end.
+Proof. vm_compute. auto. Qed.
+Example igs_user_line_type_panics : exists n, igs_draw_line iexec_new 0 0 5 5 0%N 6 = Panic n /\ n = SITE_IGS_LINESTYLE.
+Proof. eexists. split; reflexivity. Qed.
